@@ -113,6 +113,13 @@ def subst(text, fmeta):
     for i, a in enumerate(fmeta.get('ftargs') or []):
         t = t.replace('$F%d' % (i + 1), a)
     t = t.replace('$FN', fmeta['cname'])
+    # $ARG1, $ARG2 ...: names of the C++ parameters in order (self / vf_ret excluded), so that a
+    # contract does not depend on what a parameter happens to be called in the source
+    if '$ARG' in t:
+        names = [param_decl(p)[1] for p in fmeta.get('params') or []]
+        names = [n for n in names if n not in ('self', 'vf_ret', 'vf_c')]
+        for i in range(len(names), 0, -1):
+            t = t.replace('$ARG%d' % i, names[i - 1])
     return t
 
 
